@@ -88,6 +88,10 @@ func (it *NativeIterator) Next() (key []byte, err error) {
 func (it *NativeIterator) Merge(oldval []byte) (val []byte, err error) {
 	entry := it.curKV
 	entryVal := entry.Value
+	// Earlier snapshots did not have a deleted flag and indicated deleted
+	// entries with an empty application value (see addHeader).
+	entryDeleted := entry.MaskedFlags().IsDeleted() ||
+		(len(entryVal) == 0 && it.FormatVersion < 2)
 	//logrus.Debug("key = %s | old = %s | new = %s",
 	//	string(entry.Key), string(oldval), string(entryVal))
 	if len(oldval) == 0 {
@@ -95,8 +99,7 @@ func (it *NativeIterator) Merge(oldval []byte) (val []byte, err error) {
 
 		// Sweeper: check if it is a stale deletion record to not re-add a
 		// record that may just have been swept.
-		entryFlags := entry.MaskedFlags()
-		if entryFlags.IsDeleted() && header.Timestamp(entry.TimestampNano) < it.DeletedCutoff {
+		if entryDeleted && header.Timestamp(entry.TimestampNano) < it.DeletedCutoff {
 			// Remove (effectively 'do not add', because it does not exist)
 			return nil, nil
 		}
@@ -121,7 +124,7 @@ func (it *NativeIterator) Merge(oldval []byte) (val []byte, err error) {
 	actualOldVal := appVal
 	if newTS == 0 {
 		// Special handling for main to shadow copy that uses a default timestamp
-		if bytes.Equal(actualOldVal, entryVal) {
+		if bytes.Equal(actualOldVal, entryVal) && h.Flags.IsDeleted() == entryDeleted {
 			return oldval, nil // do not update timestamp
 		}
 		newTS = it.DefaultTimestampNano
@@ -130,10 +133,15 @@ func (it *NativeIterator) Merge(oldval []byte) (val []byte, err error) {
 		// Current LMDB value has a higher timestamp, so keep that one
 		return oldval, nil
 	}
-	if newTS == oldTS && bytes.Compare(actualOldVal, entryVal) <= 0 {
+	if newTS == oldTS {
 		// Same timestamp, lexicographic lower app value wins for deterministic values,
 		// so return the old value if the plain value was lower or equal.
-		return oldval, nil
+		// A deleted entry and a live entry with an empty value compare equal
+		// here, in which case the deleted one wins on every instance.
+		cmp := bytes.Compare(actualOldVal, entryVal)
+		if cmp < 0 || (cmp == 0 && (h.Flags.IsDeleted() || !entryDeleted)) {
+			return oldval, nil
+		}
 	}
 	// Update LMDB value
 	return it.addHeader(entryVal, newTS, entry.MaskedFlags(), false)
